@@ -56,6 +56,7 @@ func main() {
 		oneShot   = flag.String("oneshot", "z3,z3-new,cvc5", "solvers of the non-incremental portfolio")
 		dumpDir   = flag.String("dump", "", "directory for standalone SMT-LIB dumps of portfolio queries")
 		noWitness = flag.Bool("no-witness", false, "disable model-witness shortcut for branch feasibility")
+		maxDec    = flag.Int("max-decisions", 0, "symbolic decisions allowed on one path (0 = default 100000)")
 		lazyFP    = flag.Bool("lazy-fp", false, "fork on floating-point branch conditions without a feasibility query; check each completed path once")
 		progress  = flag.Int("progress", 30, "seconds between progress lines (0 = none)")
 		tier      = flag.Int("tier", 0, "0 quick, 1 thorough (verifrt.Tier)")
@@ -220,7 +221,7 @@ func main() {
 		c := &interp.Config{
 			Workers: *workers, TimeoutMs: *timeoutMs, MaxSteps: *maxSteps, MaxDepth: *maxDepth, MaxAlloc: *maxAlloc,
 			MaxPaths: *maxPaths, MaxFailures: *maxFail, Solver: *solver, AltSolver: *alt, Verbose: *verbose, SolverLog: *slog,
-			Concrete: conc, MapOrderNondet: *mapOrder, OneShotMs: *oneShotMs, OneShotSolvers: strings.Split(*oneShot, ","), DumpDir: *dumpDir, Tier: *tier, Progress: *progress, NoWitness: *noWitness, LazyFP: *lazyFP, AltMs: *altMs, NoAltSession: *noAltSess, KeepGlobals: *keepGlob, NoSlice: *noSlice,
+			Concrete: conc, MapOrderNondet: *mapOrder, OneShotMs: *oneShotMs, OneShotSolvers: strings.Split(*oneShot, ","), DumpDir: *dumpDir, Tier: *tier, Progress: *progress, NoWitness: *noWitness, LazyFP: *lazyFP, MaxDecisions: *maxDec, AltMs: *altMs, NoAltSession: *noAltSess, KeepGlobals: *keepGlob, NoSlice: *noSlice,
 		}
 		if *deadline > 0 {
 			c.Deadline = time.Now().Add(time.Duration(*deadline) * time.Second)
